@@ -53,6 +53,8 @@ def bfs(
             continue
         for op in list(ops(st)):
             nxt = copier(st)
+            if hasattr(nxt, "__dict__"):
+                nxt.__dict__["hist_ops"] = hist + (op,)  # shared, never copied (see Bundle.SHARED)
             obs = apply(nxt, op)
             transitions += 1
             k = canon(nxt)
@@ -75,7 +77,9 @@ def bfs(
                 continue
             b = (validate_make or make)()
             obs = None
-            for op in hist:
+            for i, op in enumerate(hist):
+                if hasattr(b, "__dict__"):
+                    b.__dict__["hist_ops"] = hist[: i + 1]
                 obs = apply(b, op)
             if canon(b) != k or not _same(obs, obs_of.get(k)):
                 raise Diverged(f"fresh replay of {hist!r} diverged from the explored state")
@@ -104,7 +108,7 @@ def _same(a, b):
 class Bundle:
     """State bundle whose attributes named in SHARED are not copied (collector, config)."""
 
-    SHARED = ("col", "cfg")
+    SHARED = ("col", "cfg", "hist_ops")
 
     def __deepcopy__(self, memo):
         new = self.__class__.__new__(self.__class__)
